@@ -144,6 +144,7 @@ def make_trace(tid, case, run, result):
         "mustFinish": must,
         "detail": detail,
         "refused": result.get("allocFailed", 0),
+        "inSilent": 0,
     }
 
 
